@@ -7,7 +7,9 @@
 (*                                                                         *)
 (* A scenario is a sequence of API operations                              *)
 (*     [op |-> "write"] | [op |-> "rotate"] | [op |-> "destroy"]           *)
-(* on successive outputs 1, 2, ...  Data is counted in abstract units:     *)
+(* on successive outputs 1, 2, ...  Output 1 goes to name 1; a rotation    *)
+(* goes to the next fresh name or, with a field `to`, onto a name used     *)
+(* before -- also the one in use.  Data is counted in abstract units:      *)
 (* unit <<o, k>> is the k-th unit handed to output o; compressed outputs   *)
 (* end with a trailer unit <<o, 0>> produced when the stream is finished.  *)
 (*                                                                         *)
@@ -28,13 +30,15 @@
 (*                          known finding for C16)                         *)
 (*   "swallow_close"        a write that fails while a compressed stream   *)
 (*                          is being finished raises no exception (pinned) *)
+(*   "open_before_close"    a rotation opens (truncates) the next '.part'  *)
+(*                          before it closes and renames the current one   *)
 (***************************************************************************)
 EXTENDS Naturals, Sequences, FiniteSets, TLC
 
 CONSTANTS Scenario,    \* sequence of API operations
           Named,       \* TRUE: file-name outputs ('.part' + rename); FALSE: descriptor outputs
           Compressed,  \* TRUE: outputs end with a trailer unit
-          PreExisting, \* set of output indices whose final name already exists with old content
+          PreExisting, \* set of names whose final name already exists with old content
           FaultAt,     \* 0 = no fault; k = the k-th write system call fails
           Persistent,  \* TRUE: every write system call from FaultAt on fails
           WBug
@@ -53,9 +57,23 @@ VARIABLES pc,        \* index of the current API operation
 
 vars == <<pc, step, cur, given, ubuf, fs, nsys, lost, reported, returned, alive>>
 
-Part(o)  == <<"part", o>>
-Final(o) == <<"final", o>>
-Target(o) == IF Named /\ WBug # "write_final_name" THEN Part(o) ELSE Final(o)
+(* the name every output is written under (static: determined by the scenario) *)
+RECURSIVE NameSeq(_, _, _)
+NameSeq(i, acc, mx) ==
+    IF i > Len(Scenario) THEN acc
+    ELSE IF Scenario[i].op = "rotate" THEN
+         LET n == IF "to" \in DOMAIN Scenario[i] THEN Scenario[i].to ELSE mx + 1 IN
+         NameSeq(i + 1, Append(acc, n), IF n > mx THEN n ELSE mx)
+    ELSE NameSeq(i + 1, acc, mx)
+OutNames == NameSeq(1, <<1>>, 1)
+NameOf(o) == OutNames[o]
+
+Part(o)  == <<"part", NameOf(o)>>
+Final(o) == <<"final", NameOf(o)>>
+SameNameAsBefore(o) == o > 1 /\ NameOf(o) = NameOf(o - 1)
+Target(o) == IF ~Named \/ WBug = "write_final_name" THEN Final(o)
+             ELSE IF WBug = "open_before_close" /\ SameNameAsBefore(o) THEN Final(o)    \* the file it opened has been renamed
+             ELSE Part(o)
 Old == << <<0, 0>> >>       \* content of a file that existed before (a unit of no output)
 
 Units(o, n) == [k \in 1..n |-> <<o, k>>]
@@ -66,7 +84,7 @@ Complete(o, n) == Units(o, n) \o (IF Compressed THEN <<Trailer(o)>> ELSE <<>>)
 
 Init ==
     /\ pc = 1 /\ step = "begin" /\ cur = 1 /\ given = 0 /\ ubuf = <<>>
-    /\ fs = [p \in {Final(o) : o \in PreExisting} |-> Old] @@ (Target(1) :> <<>>)
+    /\ fs = [p \in {<<"final", n>> : n \in PreExisting} |-> Old] @@ (Target(1) :> <<>>)
     /\ nsys = 0 /\ lost = {} /\ reported = {} /\ returned = {} /\ alive = TRUE
 
 Op == Scenario[pc]
@@ -105,7 +123,10 @@ CloseFinish ==      \* finish the compressed stream: the trailer is staged
     /\ alive /\ Closing /\ step = "begin"
     /\ ubuf' = IF Compressed THEN Append(ubuf, Trailer(cur)) ELSE ubuf
     /\ step' = IF Named /\ WBug = "rename_before_flush" THEN "rename" ELSE "flush"
-    /\ UNCHANGED <<pc, cur, given, fs, nsys, lost, reported, returned, alive>>
+    /\ fs' = IF Named /\ WBug = "open_before_close" /\ Op.op = "rotate"
+             THEN [p \in DOMAIN fs \cup {Part(cur + 1)} |-> IF p = Part(cur + 1) THEN <<>> ELSE fs[p]]    \* (deviation) opened too early
+             ELSE fs
+    /\ UNCHANGED <<pc, cur, given, nsys, lost, reported, returned, alive>>
 
 CloseFlushed ==     \* everything staged has been handed to the operating system
     /\ alive /\ Closing /\ step = "flush" /\ ubuf = <<>>
@@ -133,7 +154,8 @@ CloseDone ==
     /\ returned' = IF Op.op = "rotate" /\ cur \notin reported THEN returned \cup {cur} ELSE returned
     /\ IF Op.op = "rotate"
        THEN /\ cur' = cur + 1 /\ given' = 0
-            /\ fs' = [p \in DOMAIN fs \cup {Target(cur + 1)} |-> IF p = Target(cur + 1) THEN <<>> ELSE fs[p]]
+            /\ fs' = IF Named /\ WBug = "open_before_close" THEN fs            \* (deviation) it is open already
+                     ELSE [p \in DOMAIN fs \cup {Target(cur + 1)} |-> IF p = Target(cur + 1) THEN <<>> ELSE fs[p]]
        ELSE UNCHANGED <<cur, given, fs>>
     /\ pc' = pc + 1 /\ step' = "begin"
     /\ UNCHANGED <<ubuf, nsys, lost, reported, alive>>
@@ -155,8 +177,10 @@ Expected(o) == Complete(o, CountFor(o, 1, 1, 0))
 
 (* C15: at every instant (in particular after a crash) a file found under a final name is either *)
 (* the one that was there before or a complete output                                              *)
+OutputsOfName(n) == {o \in 1..Len(OutNames) : OutNames[o] = n}
 C15_Atomic ==
-    Named => \A p \in DOMAIN fs : p[1] = "final" => (fs[p] = Old \/ (FaultAt = 0 => fs[p] = Expected(p[2])))
+    Named => \A p \in DOMAIN fs : p[1] = "final" =>
+                 (fs[p] = Old \/ (FaultAt = 0 => \E o \in OutputsOfName(p[2]) : fs[p] = Expected(o)))
 C15_AtomicNoFault == FaultAt = 0 => C15_Atomic
 
 (* C16: rotate_output never returns normally for an output that lost bytes *)
@@ -164,5 +188,6 @@ C16_Reported == \A o \in returned : o \notin lost
 (* C13/C14 at this level: a closed output holds exactly what was handed to it (no fault, no crash) *)
 C14_Complete ==
     (FaultAt = 0 /\ alive /\ pc > Len(Scenario)) =>
-        \A p \in DOMAIN fs : (p[1] = "final" /\ fs[p] # Old) => fs[p] = Expected(p[2])
+        \A p \in DOMAIN fs : (p[1] = "final" /\ fs[p] # Old) =>
+            LET os == OutputsOfName(p[2]) IN fs[p] = Expected(CHOOSE o \in os : \A q \in os : q <= o)   \* the last output of that name
 =============================================================================
